@@ -29,6 +29,9 @@ def rules(ctx):
     c123(ctx)
     c124(ctx)
     C09.c096(ctx)
+    # "each batch exactly once and whole" under concurrent appends rests on the coalescing queue handing every input to the core once
+    from . import C18
+    C18.c181(ctx)
 
 
 def c12_reader_gates(ctx):
